@@ -17,14 +17,14 @@ def cdel(d):
     return "(%s, %s, %s, %s)" % (d[0], d[1], vf.cbool(d[2]), vf.cstr(d[3]))
 
 
-def scenario(seed, snap, duration, nresets, suspending=False):
+def scenario(seed, snap, duration, nresets, suspending=False, fixed_plan=None):
     import random
     rng = random.Random(seed)
     fullstack.reset_config()
 
     async def main(loop):
         import geckolib.config as C
-        plan = fullstack.fault_plan(rng, loop.time(), duration)
+        plan = fullstack.fault_plan(rng, loop.time(), duration) if fixed_plan is None else [(loop.time() + a, loop.time() + b, m, p) for (a, b, m, p) in fixed_plan]
         srng = random.Random(seed + 99)
         suspend = (lambda ev: srng.choice([None, 0, 0, 0.01, 0.3])) if suspending else None
         st = fullstack.Stack(loop, snap, plan, rng, latency=rng.choice([0.01, 0.03, 0.07]), suspend=suspend)
@@ -105,7 +105,7 @@ def scenario(seed, snap, duration, nresets, suspending=False):
 
 def run(ctx):
     ctx.rule = ("the REAL full stack - GeckoAsyncSpaMan with its real sequence pump, GeckoAsyncLocator, GeckoAsyncSpa, GeckoAsyncFacade - against the real in-process simulator "
-                "under virtual time on a scripted network: random windows of blackout / random loss / RF-error answers / health of 0.4 s .. 140 s, user resets and set-spa-info "
+                "under virtual time on a scripted network: random windows of blackout / random loss / RF-error answers / health of 0.4 s .. 140 s (plus fixed scripts: keep-alive pings lost from the start of a connection, then a blackout), user resets and set-spa-info "
                 "calls at random virtual times (also during discovery and the handshake); after the script the network is healthy and the run must reach CONNECTED with a facade "
                 "whose status block equals the simulator's within the model's bound; the pump task is sampled every 0.25 s; a blackout that starts in CONNECTED must be reported "
                 "within the configured bound; the stream of events delivered to the client (with state, facade?, status text at delivery) must be a path of the lifecycle LTS; "
@@ -113,11 +113,18 @@ def run(ctx):
     ctx.prove(extra_targets=["Model/HealChk.vo"], timeout=1800)
     n = 60 if ctx.thorough else 20
     exprs, meta = [], []
-    for k in range(n):
+    # fixed scripts next to the random ones: the keep-alive pings of a fresh connection are lost from the start (everything else passes, the
+    # manager reaches CONNECTED without a single answered ping), then the spa disappears altogether
+    fixed = [[(0.0, w, "noping", 0), (w, w + 330.0, "blackout", 0)] for w in ((20.0, 45.0, 9.0) if ctx.thorough else (20.0,))]
+    for k in range(n + len(fixed)):
         snap = SNAPS[k % len(SNAPS)]
         seed = ctx.seed * 1000 + k
-        suspending = (k % 2 == 1)      # every other run: the client's handler really suspends (0 .. 0.3 s) - the LTS acceptance is skipped for those
-        r = scenario(seed, snap, 300 if ctx.thorough and k % 3 == 0 else 160, nresets=rng_choice(k // 2), suspending=suspending)
+        suspending = (k % 2 == 1) and k < n      # every other run: the client's handler really suspends (0 .. 0.3 s) - the LTS acceptance is skipped for those
+        if k < n:
+            r = scenario(seed, snap, 300 if ctx.thorough and k % 3 == 0 else 160, nresets=rng_choice(k // 2), suspending=suspending)
+        else:
+            r = scenario(seed, snap, fixed[k - n][-1][1] + 5.0, nresets=0, fixed_plan=fixed[k - n])
+            ctx.count("runs_connected_without_an_answered_ping_then_blackout")
         ctx.count("runs_with_suspending_client_handler" if suspending else "runs_with_atomic_client_handler")
         visited = {s for (t, s) in r["states"]}
         m = {"seed": seed, "snapshot": snap, "healed_after_s": r["healed"], "final": r["state"], "visited": sorted(visited), "resets": r["resets"], "plan": r["plan"][:10],
